@@ -88,10 +88,10 @@ def arch32_lines(prop, tier, seed):
     units (Cut to Cut) are self-contained, the quick tier validates every third of them"""
     d = vlib.scratch("verif-tr-")
     out = os.path.join(d, "trace32.ndjson")
-    # (this pass also runs on a CPU count that is no power of two)
-    vlib.run_harness(harness32(), ["gen", "-prop", prop, "-tier", tier, "-seed", str(seed + 32), "-out", out],
-                     env_extra={"GOMAXPROCS": str([3, 5, 6, 7][seed % 4])})
-    lines = vlib.read_trace(out)
+    # (this pass also runs on a CPU count that is no power of two; a process that dies inside the library - 2 GB of
+    # address space are soon used up - is recorded as a Crash event)
+    lines, _ = run_scenario(harness32(), ["gen", "-prop", prop, "-tier", tier, "-seed", str(seed + 32)], None, timeout=1800,
+                            env_extra={"GOMAXPROCS": str([3, 5, 6, 7][seed % 4])})
     if tier != "quick":
         return lines
     # ... and every unit in which a call panicked or hung
@@ -222,10 +222,7 @@ def plain_replay(prop, path, binary):
     # what a call does may depend on when the collector runs: a unit that does not fail again at once is re-executed
     # twice more before the failure counts as not reproduced
     for attempt in range(3):
-        d = vlib.scratch("verif-rp-")
-        out = os.path.join(d, "replay.ndjson")
-        vlib.run_harness(binary, ["replay", "-arg", path, "-out", out])
-        lines = vlib.read_trace(out)
+        lines, _ = run_scenario(binary, ["replay", "-arg", path], None, timeout=1800)     # (a death inside the library is a Crash event)
         v = vlib.validate(lines, [prop], shards=1)
         if v.infra:
             raise Infra("replay trace unusable: %s" % v.infra[:3])
@@ -353,19 +350,11 @@ def phased_replay(prop):
         unit = json.load(open(path))["unit"]
         if unit and (unit[0].get("cold") or "concuni_seed" in unit[0] or "batch_seed" in unit[0]):
             return cold_replay(prop)(path, binary)
-        if any(e.get("op") == "Crash" for e in unit):
+        if any(e.get("op") == "Crash" for e in unit) and not any(e.get("arch") == "386" for e in unit[:1]):
             reset = next((e for e in unit if e.get("op") == "Reset"), {})
             _, crashed, r = phased_extreme(binary, prop, reset.get("tier", "quick"), reset.get("seed", 1))
             return (not crashed, "extreme-argument phase re-run in a child process: %s" % ("died again: " + r.stderr[:200].replace("\n", " | ") if crashed else "completed"))
-        d = vlib.scratch("verif-rp-")
-        out = os.path.join(d, "replay.ndjson")
-        vlib.run_harness(binary, ["replay", "-arg", path, "-out", out])
-        lines = vlib.read_trace(out)
-        v = vlib.validate(lines, [prop], shards=1)
-        if v.infra:
-            raise Infra("replay trace unusable: %s" % v.infra[:3])
-        mine = [b for b in v.bad if b[1] == prop]
-        return (len(mine) == 0, "re-executed %d events, %d failing" % (len(lines), len(mine)))
+        return plain_replay(prop, path, binary)
     return rp
 
 
@@ -803,9 +792,8 @@ def replay_c06(path, binary):
     if cut is not None:
         lines = overlap_lines(binary, cut["overlap_tier"], cut["overlap_seed"])
     else:
-        vlib.run_harness(binary, ["replay", "-arg", path, "-out", out])
-        lines = vlib.read_trace(out)
-    v = vlib.validate(lines, ["C06"], shards=1 if cut is None else 4)
+        return plain_replay("C06", path, binary)
+    v = vlib.validate(lines, ["C06"], shards=4)
     if v.infra:
         raise Infra("replay trace unusable: %s" % v.infra[:3])
     mine = [b for b in v.bad if b[1] == "C06"]
@@ -949,6 +937,11 @@ def replay_c07(path, binary):
     call = fe if fe.get("op") == "NewMnemonic" and fe.get("n", {}).get("fits") else None
     if call is None:
         call = next((e for e in reversed(rp["unit"]) if e.get("op") == "NewMnemonicCall"), None)
+    if call is None and any(e.get("op") == "Swap" and e.get("new") == "overlap" for e in rp["unit"]):
+        lines = overlap_lines(binary, "quick", 1)       # the opening of the overlap scenarios (installing the shared source)
+        v = vlib.validate(lines, ["C07"], shards=4)
+        mine = [b for b in v.bad if b[1] == "C07"]
+        return (len(mine) == 0, "overlap scenarios run again: %d events, %d failing" % (len(lines), len(mine)))
     if call is None:
         raise Infra("C07 replay file has no NewMnemonic call")
     d = vlib.scratch("verif-os-")
